@@ -106,7 +106,7 @@ class Ctx:
         return sum(1 for o in self.obligations if o["rule"] == rule)
 
 
-_OPAQUE_RE = re.compile(r"AOpq\(|OB\(|\bopaque\b|external [a-z_.]+")
+_OPAQUE_RE = re.compile(r"AOpq\(|OB\(|\bopaque\b|external [a-z_.]+|\babort:|\bbudget:")
 
 
 def load_known() -> Dict[str, Any]:
